@@ -280,7 +280,7 @@ func cmdCheck(args []string) {
 	sort.Strings(order)
 	nObl, nDis := 0, 0
 	violations := 0
-	var samples []interface{}
+	samples := []interface{}{}
 	replayDir := filepath.Join(*verif, "replays", *prop)
 	os.MkdirAll(replayDir, 0o755)
 	for _, name := range order {
